@@ -1,6 +1,46 @@
-(** C04 - placeholder until the transcript theorems land. *)
-From Coq Require Import List NArith.
-From BP Require Import Model.Transcript.
-Theorem C04_placeholder : label_code LDomSep = 0%N.
-Proof. reflexivity. Qed.
-Print Assumptions C04_placeholder.
+(** C04 — Fiat-Shamir binding: each challenge depends on everything before it.
+    A transcript is the list of operations applied to it; Merlin/STROBE is an oracle of that list
+    (TRUSTED: distinct lists give independent outputs).  What is proved is what the code is responsible
+    for: which data reach the oracle, in which order and framing.  Statements only. *)
+From Coq Require Import List Arith NArith Bool.
+From BP Require Import Model.Codec Model.Transcript Proofs.TranscriptP.
+Import ListNotations.
+Open Scope N_scope.
+
+(** Whenever the verifier gets through the transcript phase, its operation list is the pure list. *)
+Theorem C04_verifier_ops_shape : forall s p x, verifier_ops s p = Some x -> x = verifier_ops_pure s p.
+Proof. exact verifier_ops_some. Qed.
+Print Assumptions C04_verifier_ops_shape.
+
+(** Equal operation lists force equal statement data — bit length, extension degree, H, every Gb_k,
+    every commitment (hence the aggregation factor and the order), every promise up to None = Some 0 —
+    and equal proof elements A, every L_j, every R_j, A1, B, r1, s1, every d1_k.  Contrapositive: changing
+    any single absorbed datum changes the oracle input of the first challenge drawn after it. *)
+Theorem C04_log_injective : forall s s' p p' l,
+  List.length (p_li p) = List.length (p_ri p) -> List.length (p_li p') = List.length (p_ri p') ->
+  verifier_ops s p = Some l -> verifier_ops s' p' = Some l ->
+  tstmt_equiv s s' /\ p_a p = p_a p' /\ p_li p = p_li p' /\ p_ri p = p_ri p' /\ p_a1 p = p_a1 p' /\ p_b p = p_b p' /\
+  p_r1 p = p_r1 p' /\ p_s1 p = p_s1 p' /\ p_d1 p = p_d1 p'.
+Proof. exact verifier_ops_injective. Qed.
+Print Assumptions C04_log_injective.
+
+(** The log before (y, z) — statement, parameters, A — is a prefix of the whole log: every later
+    challenge's oracle input contains it. *)
+Theorem C04_first_challenge_prefix : forall s p, exists rest, verifier_ops_pure s p = log_yz s p ++ rest.
+Proof. exact log_yz_prefix_of_all. Qed.
+Print Assumptions C04_first_challenge_prefix.
+
+(** Identity points are refused wherever a point is absorbed. *)
+Theorem C04_identity_rejected :
+  (forall s w, ts_Henc s = 0 -> ops_new s w = None) /\ (forall w, ops_yz 0 w = None) /\
+  (forall r w, ops_round 0 r w = None) /\ (forall l w, ops_round l 0 w = None) /\
+  (forall b w, ops_final 0 b w = None) /\ (forall a1 w, ops_final a1 0 w = None).
+Proof.
+  split; [exact identity_rejected_H|]. split; [exact identity_rejected_A|]. split; [exact identity_rejected_round_L|].
+  split; [exact identity_rejected_round_R|]. split; [exact identity_rejected_final_A1|exact identity_rejected_final_B].
+Qed.
+Print Assumptions C04_identity_rejected.
+
+(** Non-vacuity: a concrete statement and proof get through the transcript phase. *)
+Example C04_ex : exists l, verifier_ops (mkTstmt 8 1 5 [6] [7; 8] [None; Some 3]) (mkProof 1 [9] 10 11 12 13 14 [15] [16]) = Some l.
+Proof. eexists. reflexivity. Qed.
